@@ -24,8 +24,88 @@ fn main() {
 				}
 			}
 		}
+		"mt" => {
+			for case in read_cases(&args[2]) {
+				emit(&run_mt(&case));
+			}
+			std::process::exit(0);
+		}
 		other => panic!("unknown subcommand {other}"),
 	}
+}
+
+/// Several sender tasks on a multi-threaded runtime (real time) drive one job concurrently.  Each sender issues its own
+/// list of calls in order; senders are not synchronised with each other.  Judged by monitors on the log (no overlap of
+/// children, every ticket resolves, per-sender order of run() marks).
+fn run_mt(case: &Value) -> Value {
+	let rt = tokio::runtime::Builder::new_multi_thread().worker_threads(4).enable_all().build().unwrap();
+	let case = case.clone();
+	let v = rt.block_on(async move {
+		let script = Script {
+			children: case["script"]["children"].as_array().map(|a| a.iter().map(beh_of).collect()).unwrap_or_default(),
+			spawn_fail: vec![], signal_fail: vec![], kill_fail: vec![],
+		};
+		let sh: Shared = Arc::new(Mutex::new(World { t0: tokio::time::Instant::now(), log: vec![], script, attempts: 0, spawned: 0, signals: 0, kills: 0 }));
+		let command = Arc::new(Command { program: Program::Exec { prog: "true".into(), args: vec![] }, options: SpawnOptions::default() });
+		let (job, task) = start_job(command);
+		install_hook(&job, &sh, None).await;
+		let senders = case["senders"].as_array().unwrap().clone();
+		let resolved: Arc<Mutex<Vec<Vec<Option<u64>>>>> = Arc::new(Mutex::new(senders.iter().map(|s| vec![None; s.as_array().unwrap().len()]).collect()));
+		let mut handles = Vec::new();
+		for (si, ops) in senders.iter().enumerate() {
+			let (job, sh, resolved, ops) = (job.clone(), sh.clone(), resolved.clone(), ops.as_array().unwrap().clone());
+			handles.push(tokio::spawn(async move {
+				let mut waiters = Vec::new();
+				for (k, op) in ops.iter().enumerate() {
+					if let Some(us) = op["gap_us"].as_u64() {
+						tokio::time::sleep(Duration::from_micros(us)).await;
+					}
+					let grace = Duration::from_millis(op["grace"].as_u64().unwrap_or(0));
+					let ticket = match op["op"].as_str().unwrap() {
+						"start" => job.start(),
+						"stop" => job.stop(),
+						"restart" => job.restart(),
+						"try_restart" => job.try_restart(),
+						"stop_with_signal" => job.stop_with_signal(sig_of(&op["sig"]), grace),
+						"restart_with_signal" => job.restart_with_signal(sig_of(&op["sig"]), grace),
+						"signal" => job.signal(sig_of(&op["sig"])),
+						"to_wait" => job.to_wait(),
+						"run" => {
+							let (sh2, m) = (sh.clone(), op["mark"].as_u64().unwrap());
+							job.run(move |ctx| log(&sh2, &format!("mark({m},{},{})", state_tag(ctx.current), ctx.previous.map_or("-".into(), state_tag))))
+						}
+						o => panic!("mt op {o}"),
+					};
+					let (res, sh2) = (resolved.clone(), sh.clone());
+					waiters.push(tokio::spawn(async move {
+						ticket.await;
+						let now = { let w0 = sh2.lock().unwrap(); now_ms(&w0) };
+						res.lock().unwrap()[si][k] = Some(now);
+					}));
+				}
+				waiters
+			}));
+		}
+		let mut waiters = Vec::new();
+		for h in handles {
+			waiters.extend(h.await.unwrap());
+		}
+		tokio::time::sleep(Duration::from_millis(case["tail_ms"].as_u64().unwrap_or(300))).await;
+		// end the job: every outstanding ticket must then resolve
+		let del = job.delete_now();
+		let del_ok = tokio::time::timeout(Duration::from_millis(2000), del).await.is_ok();
+		tokio::time::sleep(Duration::from_millis(50)).await;
+		let finished = task.is_finished();
+		let panicked = if finished { task.await.is_err() } else { task.abort(); false };
+		for w in waiters {
+			w.abort();
+		}
+		let logv = sh.lock().unwrap().log.clone();
+		let res = resolved.lock().unwrap().clone();
+		json!({"id": case["id"], "log": logv, "tickets": res, "task_finished": finished, "panicked": panicked, "delete_resolved": del_ok})
+	});
+	rt.shutdown_timeout(Duration::from_millis(100));
+	v
 }
 
 fn sig_of(v: &Value) -> Signal {
